@@ -89,6 +89,7 @@ type Step struct {
 	Malformed  string `json:"malformed,omitempty"`  // generator label: why this message is malformed
 	Mutation   *Mutation `json:"mutation,omitempty"`
 	Open       *OpenSpec `json:"open,omitempty"` // OPEN the scripted peer sends from now on (peer_auto / send_open)
+	Par        []Step    `json:"par,omitempty"`  // operations released together by a "par" step
 }
 
 // Mutation corrupts the encoded message of a step before it is delivered.
